@@ -79,6 +79,14 @@ class C18(Prop):
         for ci in range(1, nc):
             if rng.random() < 0.12:
                 steps.append({"t": "node", "id": ci, "health": rng.choice(["refuse", "eof", "blackhole"])})
+        strict_down = None
+        if nc > 1 and rng.random() < 0.12:
+            # a fallback cache built WITHOUT ignore_exc (against the documented advice) whose server is taken down:
+            # a read that gets as far as it fails with that cache's error; the cache stays where it is in the
+            # order, and is consulted again by later reads (and answers again once its server is back)
+            strict_down = rng.randrange(1, nc)
+            per[strict_down] = {}
+            steps.append({"t": "node", "id": strict_down, "health": rng.choice(["refuse", "refuse", "eof"])})
         if nc > 1 and rng.random() < 0.1:
             # the primary itself is unreachable: writes must fail (or be lost), never go to a fallback cache
             steps.append({"t": "node", "id": 0, "health": rng.choice(["refuse", "reset", "blackhole", "unreach"])})
@@ -133,6 +141,9 @@ class C18(Prop):
             else:
                 a = [E(rng.sample(keys, rng.randint(1, len(keys))))]
             steps.append({"t": "call", "m": m, "a": a, "k": k})
+            if strict_down is not None and rng.random() < 0.1:
+                steps.append({"t": "node", "id": strict_down, "health": "up"})
+                strict_down = None
             if rng.random() < 0.03:
                 # connections are recycled (close() in a forked child, a periodic reconnect): the caches reconnect
                 # on their next use and everything goes on as before
@@ -227,7 +238,10 @@ class C18(Prop):
         def wk(k):
             return pfx + (k.encode() if isinstance(k, str) else k)
 
+        per_kw = scn["world"]["per_cache_kwargs"]
         recache = [(i, st["order"]) for i, st in enumerate(scn["steps"]) if st["t"] == "recache"]
+        strict = {i for i in range(1, nc0) if not (per_kw[i] or {}).get("ignore_exc")}
+        stale = set()     # strict fallbacks that may still hold a connection from before their server went away
         for rec in res.calls:
             if rec.step < 0:
                 continue
@@ -253,13 +267,14 @@ class C18(Prop):
             snap = rec.extra["snap"]
             health = rec.extra["health"]
             first = order[0]
+            stale |= {ci for ci in strict if health[ci] != "up"}
             if m in WRITES:
                 if visited not in ([first], []):
                     out.append(viol("write-touched-a-fallback-cache", rec, visited=visited, primary=first))
                     continue
                 want = self.intent(m, args, kwargs, wk)
                 got = [(c[1], c[2], c[3]) for c in cmds if c[0] == first]
-                if health[first] != "up":
+                if health[first] != "up" or first in stale:
                     continue          # unreachable primary: the write is lost or raises; it stayed local, checked above
                 if got != want:
                     out.append(viol("write-command-differs-from-call", rec, want=repr(want)[:200], got=repr(got)[:200]))
@@ -269,7 +284,10 @@ class C18(Prop):
             wks = [wk(k) for k in keys]
             stop = None
             stop_pos = None
+            may_raise = []
             for pos, ci in enumerate(order):
+                if ci in stale:
+                    may_raise.append(pos)
                 if health[ci] != "up":
                     continue
                 if any(x in snap[ci] for x in wks):
@@ -279,6 +297,16 @@ class C18(Prop):
             expect_visit = list(order) if stop is None else list(order[:stop_pos + 1])
             if health[first] != "up" or (0 in order and health[0] != "up"):
                 continue          # cache 0 is the only one built without ignore_exc: when it is down a read may raise
+            may_raise = [p_ for p_ in may_raise if stop_pos is None or p_ <= stop_pos]
+            stale -= set(visited)        # a read waits for its reply: the connection is proven good, or closed
+            if may_raise and rec.outcome == "raise":
+                # the read got as far as a fallback built without ignore_exc that is unreachable (or whose
+                # connection died with its server): that cache's error is the outcome; every cache before it was
+                # consulted, in order, and none after it
+                if not any(visited == list(order[:p_ + 1]) for p_ in may_raise):
+                    out.append(viol("read-visited-wrong-caches", rec, disc="%s.before-error" % m, visited=visited,
+                                    expected=[list(order[:p_ + 1]) for p_ in may_raise]))
+                continue
             if visited != expect_visit:
                 disc = "stopped-early" if len(visited) < len(expect_visit) else "went-too-far"
                 out.append(viol("read-visited-wrong-caches", rec, disc="%s.%s" % (m, disc), visited=visited,
@@ -338,7 +366,8 @@ class C18(Prop):
     def probe_names(self):
         return ("read-fell-through-to-last-cache", "read-answered-by-primary", "all-caches-miss",
                 "gets-fell-through", "multi-key-read-first-non-empty", "fallback-server-down-skipped",
-                "four-caches", "write-while-primary-unreachable")
+                "four-caches", "write-while-primary-unreachable", "read-failed-at-strict-fallback",
+                "strict-fallback-consulted-again")
 
     def probes(self, scn, res):
         p = {}
@@ -350,6 +379,9 @@ class C18(Prop):
                 p["write-while-primary-unreachable"] = 1
             if c.step < 0 or c.method not in READS:
                 continue
+            if c.outcome == "raise" and c.extra.get("health", {}).get(0, "up") == "up":
+                p["strict-fallback-consulted-again" if "read-failed-at-strict-fallback" in p
+                  else "read-failed-at-strict-fallback"] = 1
             nodes = sorted({x[0] for x in c.commands})
             if nodes == [0] and c.value not in (None, (None, None), {}, []):
                 p["read-answered-by-primary"] = 1
